@@ -187,6 +187,7 @@ inductive Winner where
   | cand (c : Cand)
   | dflt (lvl : Nat)   -- the default representation of `T`
   | null (lvl : Nat)   -- nil pointer / nil interface / JSON null: no user code involved
+  | omitted (lvl : Nat) -- struct member left out by `omitzero` before anything is looked up for it
 deriving DecidableEq, Repr, Inhabited
 
 inductive Res where
@@ -358,6 +359,8 @@ structure Level where
   kind : LKind
   isNil : Bool := false       -- marshal: nil pointer / nil interface
   pre : List Op := []         -- cont: tokens handled before descending
+  omitZero : Bool := false    -- cont (struct, marshal): the member is tagged omitzero and its Go value is zero:
+                              -- the struct arshaler `continue`s before looking anything up for the member
   dfltOk : Bool := true       -- base: whether the default representation succeeds here
   forcedAddr : Bool := false  -- whether the value at this level is addressable only through a forced copy
   inNull : Bool := false      -- unmarshal: the JSON text for this level is null
@@ -399,7 +402,7 @@ def marshalLevels (maxDepth : Nat) (ms : MethodSet) (fns : List FnSpec) (beh : B
         else next ctx.m
       | .cont =>
         match runScript maxDepth l.pre ctx.m with
-        | (m', none) => next m'
+        | (m', none) => if l.omitZero then ⟨[], .ok (.omitted i)⟩ else next m'
         | (_, some _) => .error
     lookup fns l.isBase ms.js.present beh (makeMethodMarshaler l.tkind (l.methodsM ms) beh dflt)
       { legacy := legacy, forcedAddr := l.forcedAddr, m := m, lvl := i }
@@ -471,7 +474,7 @@ def documentedMarshal (maxDepth : Nat) (ms : MethodSet) (fns : List FnSpec) (beh
         else documentedMarshal maxDepth ms fns beh rest (i + 1) m
       | .cont =>
         match runScript maxDepth l.pre m with
-        | (m', none) => documentedMarshal maxDepth ms fns beh rest (i + 1) m'
+        | (m', none) => if l.omitZero then ⟨[], .ok (.omitted i)⟩ else documentedMarshal maxDepth ms fns beh rest (i + 1) m'
         | (_, some _) => .error
     documentedFns l.isBase ms.js.present beh i m below fns
 
